@@ -39,7 +39,7 @@ def plan(tier, seed):
     return {"shards": len(seeds), "timeout": 900 if tier == "quick" else 3600, "batch": nb, "seeds": seeds,
             "per_shard_env": lambda i: {"PYTHONHASHSEED": seeds[i]},
             "floors": {"digest_comparisons": nb * len(seeds), "thread_conversions": nb * 2, "temp_files_tracked": nb, "cache_shadow_evals": 1000,
-                       "cross_process_groups": nb}}
+                       "cross_process_groups": nb, "regeneration_after_refusal": 5 * len(seeds)}}
 
 
 # ----------------------------------------------------------------------------- batch
@@ -83,6 +83,22 @@ def special_forms():
             rows.append(("note", f"n{v}_{k}", {"label": f"v{v} k{k} " + "x" * k + f" instance('l1')/root/item[name = ${{a}}]/label mid{k} instance('l1')/root/item[name = ${{b}} and {k} < 99]/label end"}))
         rows.append(("select_one l1", "s", {"label": "S"}))
         out.append((f"instance-labels-{v}", gen.simple_form(rows, choices={"l1": [{"name": "x", "label": "X"}, {"name": "y", "label": "Y"}]}), {}))
+    return out
+
+
+def late_failing_forms():
+    """Forms that pass workbook_to_json and tree building but are refused inside to_xml() (after itext preparation has started)."""
+    tr = {"label::en": "S", "label::fr": "S"}
+    ch = {"l1": [{"name": "a", "label::en": "A", "label::fr": "A"}, {"name": "b", "label::en": "B", "label::fr": "B"}]}
+    out = []
+    out.append(("search-and-plain-share-list", gen.simple_form([("select_one l1", "s1", dict(tr, appearance="search('f')")), ("select_one l1", "s2", dict(tr))], choices=ch)))
+    out.append(("search-on-select-from-file", gen.simple_form([("select_one_from_file c.csv", "s1", dict(tr, appearance="search('f')")), ("text", "t", dict(tr))], choices=ch)))
+    out.append(("unknown-reference-in-label", gen.simple_form([("text", "t", {"label::en": "x ${nosuch}", "label::fr": "y"}), ("select_one l1", "s2", dict(tr))], choices=ch)))
+    out.append(("unknown-reference-in-choice-label", gen.simple_form([("select_one l1", "s2", dict(tr))],
+                                                                       choices={"l1": [{"name": "a", "label::en": "A ${nosuch}", "label::fr": "A"}]})))
+    out.append(("label-missing", gen.simple_form([("text", "t", {"hint::en": "h"}), ("text", "u", {})], choices=ch)))
+    out.append(("instance-id-clash", gen.simple_form([("xml-external", "l1", {}), ("select_one l1", "s2", dict(tr))], choices=ch)))
+    out.append(("valid-control", gen.simple_form([("select_one l1", "s1", dict(tr, appearance="search('f')")), ("text", "t", dict(tr))], choices=ch)))
     return out
 
 
@@ -200,6 +216,32 @@ def run_shard(ctx):
         if fd:
             ctx.viol(f"regeneration:same-dict-object-twice:{fd}", f"{cid}: converting the same dict object twice gives different {fd}: {o1.brief()} / {o2.brief()}",
                      common.witness(form, case=cid, history="same dict object twice"))
+    # -- pass 4b: regeneration after a refusal: a survey whose to_xml() raises must keep raising the same error on every later call
+    for name, form in late_failing_forms():
+        from pyxform.builder import create_survey_element_from_dict
+        from pyxform.errors import PyXFormError
+        from pyxform.xls2json import workbook_to_json
+        from pyxform.xls2json_backends import get_xlsform
+        try:
+            sv = create_survey_element_from_dict(workbook_to_json(get_xlsform(render.to_dict(form.to_sheets())), warnings=[]))
+        except Exception as e:  # noqa: BLE001
+            ctx.obs(kind="late_form_failed_early", name=name, err=repr(e)[:200])
+            continue
+        outs = []
+        for _ in range(3):
+            try:
+                x = sv.to_xml(validate=False, pretty_print=False)
+                outs.append(("xform", len(x), hash(x)))
+            except PyXFormError as e:
+                outs.append(("PyXFormError", str(e)))
+            except Exception as e:  # noqa: BLE001
+                outs.append((type(e).__name__, str(e)))
+        ctx.ctr("digest_comparisons", 3)
+        ctx.ctr("regeneration_after_refusal")
+        ctx.case(sig=f"late-fail|{name}|{hs}")
+        if not (outs[0] == outs[1] == outs[2]):
+            ctx.viol(f"regeneration:outcome-changes-after-refusal:{name}", f"{name}: successive to_xml() calls on one survey give {[o[0] for o in outs]}: {outs[0][1] if outs[0][0] != 'xform' else ''!s:.150}",
+                     common.witness(form, case=name, history="to_xml x3 on a survey that is refused"))
     # -- pass 5: threads
     thread_pass(ctx, batch, base, hs, inject=(ctx.tier == "thorough"))
     # -- residue
